@@ -1,8 +1,8 @@
 #!/verif/.venv/bin/python
 # Replay of a solver counterexample against the unmodified code (no shims).
-# property=C09 kernel=atomic label=atomic:target#0
+# property=C09 kernel=l1 label=c09:raise_unchanged
 import sys
 sys.path[:0] = ['/repo' + "/pulser-core", '/repo' + "/pulser-simulation", "/verif"]
 from symx.replay import replay
-sys.exit(replay(check='checks.c09', kernel='atomic', shape={'device': 'virt_maxseq', 'prefix': 'p1', 'ops': ['target']},
-                assignment={'pd0/k': 2, 'pd1/k': 977, 'buf#1.start': 0, 'buf#1.end': 0, 'buf#2.start': 0, 'buf#2.end': 1, 'buf#5.start': 0, 'buf#5.end': 0, 'buf#6.start': 0, 'buf#6.end': 23}, label='atomic:target#0'))
+sys.exit(replay(check='checks.c09', kernel='l1', shape={'own': {'clock': 1, 'local': False, 'slots': ['pulseA'], 'mod': True, 'pj': 'derived', 'det_off': 0.0, 'eom': {'custom_buffer': False, 'blocks': [(0, None)]}}, 'op': ['disable_eom'], 'maxseq': True, 'nbarriers': 1},
+                assignment={'max_sequence_duration': 5, 'own.min_duration': 3, 'own.tr': 2, 'own.eom_tr': 1, 'own.s0.dur': 3, 'buf#1.start': 0, 'buf#1.end': 0, 'buf#2.start': 0, 'buf#2.end': 1}, label='c09:raise_unchanged'))
